@@ -67,7 +67,11 @@ impl TypeDependencyGraph {
         let mut visited = HashSet::new();
         let mut visiting = HashSet::new();
 
-        for type_name in types {
+        // Visit in name order: the result is then the same for every hash seed
+        let mut ordered: Vec<&String> = types.iter().collect();
+        ordered.sort();
+
+        for type_name in ordered {
             if !visited.contains(type_name) {
                 self.topological_visit(type_name, &mut sorted, &mut visited, &mut visiting);
             }
@@ -101,7 +105,9 @@ impl TypeDependencyGraph {
 
         // Visit dependencies first
         if let Some(deps) = self.dependencies.get(type_name) {
-            for dep in deps {
+            let mut ordered: Vec<&String> = deps.iter().collect();
+            ordered.sort();
+            for dep in ordered {
                 self.topological_visit(dep, sorted, visited, visiting);
             }
         }
